@@ -106,6 +106,10 @@ type DTable struct {
 	Call func(r *dtRun, call *ast.CallExpr, f *types.Func, args []dtVal) (dtVal, bool)
 	// AtomName: a stable name for an atom; "" uses the symbolic text with an occurrence number.
 	AtomName  func(e ast.Expr, sym string) string
+	// Inline: a function whose body is evaluated in place when it is called (a helper extracted from the
+	// analysed function is still part of it); nil inlines nothing.
+	Inline    func(f *types.Func) bool
+	noInline  map[*types.Func]bool // callees that turned out to lie outside the fragment
 	MaxLeaves int
 	MaxSteps  int
 }
@@ -121,6 +125,8 @@ type dtRun struct {
 	steps  int
 	ret    []dtVal
 	retPos token.Pos
+	depth  int
+	tuple  []dtVal // the results of the last inlined call (for a, b := f())
 }
 
 type dtCtl int
@@ -568,6 +574,83 @@ func (r *dtRun) eval1(e ast.Expr) dtVal {
 				return v
 			}
 		}
+		if f != nil && r.t.Inline != nil && !r.t.noInline[f] && r.t.Inline(f) && r.depth < 3 {
+			if fi := r.t.c.FuncOf(f); fi != nil && fi.Decl.Body != nil && fi.Info() == info {
+				sig := f.Type().(*types.Signature)
+				if !sig.Variadic() && sig.Params().Len() == len(args) {
+					for i := 0; i < sig.Params().Len(); i++ {
+						r.store[sig.Params().At(i)] = args[i]
+					}
+					if sig.Recv() != nil {
+						if se, ok := ast.Unparen(x.Fun).(*ast.SelectorExpr); ok {
+							rv := r.eval(se.X)
+							if rv.k == dtUnknown && rv.sym == "" {
+								rv.sym = r.sym(se.X)
+							}
+							r.store[sig.Recv()] = rv
+						}
+					}
+					// named results start as zero values
+					for i := 0; i < sig.Results().Len(); i++ {
+						if rvv := sig.Results().At(i); rvv.Name() != "" && rvv.Name() != "_" {
+							r.store[rvv] = zeroOf(rvv.Type())
+						}
+					}
+					saveRet, savePos := r.ret, r.retPos
+					// a callee outside the evaluated fragment is opaque: undo and fall back
+					snapStore := map[types.Object]dtVal{}
+					for k, v := range r.store {
+						snapStore[k] = v
+					}
+					snapF := map[string]dtVal{}
+					for k, v := range r.fstore {
+						snapF[k] = v
+					}
+					nEvents, depth0 := len(r.events), r.depth
+					var ctl dtCtl
+					failed := false
+					func() {
+						defer func() {
+							if x := recover(); x != nil {
+								if _, isStop := x.(dtStop); isStop {
+									failed = true
+									return
+								}
+								panic(x)
+							}
+						}()
+						r.depth++
+						ctl = r.block(fi.Decl.Body.List)
+						r.depth--
+					}()
+					if failed {
+						if r.t.noInline == nil {
+							r.t.noInline = map[*types.Func]bool{}
+						}
+						r.t.noInline[f] = true
+						r.store, r.fstore, r.events, r.depth = snapStore, snapF, r.events[:nEvents], depth0
+						r.ret, r.retPos = saveRet, savePos
+						return dtVal{sym: what}
+					}
+					res := r.ret
+					if ctl != ctlReturn {
+						res = nil
+					}
+					if ctl == ctlReturn && len(res) == 0 && sig.Results().Len() > 0 {
+						// bare return with named results
+						for i := 0; i < sig.Results().Len(); i++ {
+							res = append(res, r.store[sig.Results().At(i)])
+						}
+					}
+					r.ret, r.retPos = saveRet, savePos
+					r.tuple = res
+					if len(res) > 0 {
+						return res[0]
+					}
+					return dtVal{sym: what}
+				}
+			}
+		}
 		return dtVal{sym: what}
 	}
 	return dtVal{}
@@ -659,7 +742,16 @@ func (r *dtRun) stmt(s ast.Stmt) dtCtl {
 			}
 		case len(x.Rhs) == 1 && len(x.Lhs) > 1:
 			// tuple: the components of one call (or map lookup) are separate symbols
+			r.tuple = nil
 			base := r.eval(x.Rhs[0])
+			if len(r.tuple) == len(x.Lhs) {
+				tup := r.tuple
+				r.tuple = nil
+				for i, l := range x.Lhs {
+					r.assignTo(l, tup[i], x.Tok == token.DEFINE)
+				}
+				return ctlNext
+			}
 			bs := base.sym
 			if bs == "" {
 				bs = r.sym(x.Rhs[0])
